@@ -23,6 +23,10 @@ def sub(p, q):
     return [x - y for x, y in zip(p, q)]
 
 
+def scale_(v, k):
+    return [k * x for x in v]
+
+
 def primitive(v):
     g = 0
     for x in v:
@@ -47,7 +51,7 @@ def unparallel(u, v, j):
 
 
 # ----------------------------------------------------------------------------- segments
-REL_CLASSES = ["random", "parallel", "collinear", "touch", "cross", "shared-endpoint", "perp-offset"]
+REL_CLASSES = ["random", "parallel", "collinear", "touch", "cross", "shared-endpoint", "perp-offset", "skew-perp"]
 
 
 def segment_relative(D: Digits, a, b, cls, R):
@@ -81,6 +85,19 @@ def segment_relative(D: Digits, a, b, cls, R):
     elif cls == "shared-endpoint":
         c = list(D.choice([a, b]))
         d = add(c, D.vec(dim, R, True))
+    elif cls == "skew-perp" and dim == 3:
+        # skew segment whose common perpendicular with [a, b] has its feet in (or at the ends
+        # of) both segments: x on [a, b], w orthogonal to u, v orthogonal to w and not parallel to u
+        x = add(a, u, D.int(0, g))
+        w = orthogonal(D, u)
+        wu = [w[1] * u[2] - w[2] * u[1], w[2] * u[0] - w[0] * u[2], w[0] * u[1] - w[1] * u[0]]
+        wu, _ = primitive(wu)
+        v = add(scale_(u, D.int(-1, 1)), wu, D.choice([1, -1]))
+        y = add(x, w, D.int(1, 2))
+        k, l = D.int(0, 2), D.int(0, 2)
+        if k + l == 0:
+            k = l = 1
+        c, d = add(y, v, -k), add(y, v, l)
     else:  # perp-offset: a translate of a sub/super-segment in a direction orthogonal to u
         i = D.int(-2, g + 2)
         j = D.int(-2, g + 2)
